@@ -174,6 +174,11 @@ def c18(res, st, std_coq):
     q = res.tier == "quick"
     cases = gens.parser_cases(rnd, 300 if q else 5000, 100 if q else 2000, 60 if q else 1000)
     cases += gens.sentence_cases(rnd, 600 if q else 10000)
+    # rejected inputs of the SAME length whose lines break elsewhere (error messages carry line:column and a source excerpt): a result that
+    # depends on an earlier call with another text of the same name and size shows here
+    errs = [(e, s + b" +") for (e, s) in cases[:: 12 if q else 40] if b" " in s] + [("ParseQuery", x) for x in gens.MULTILINE_ERRORS + gens.MULTIBYTE_BEFORE_ERROR]
+    for (e, s) in errs:
+        cases += [(e, y) for y in gens.same_length_line_pairs([s])]
     rnd.shuffle(cases)
     out = vlib.run_lines(vlib.HARNESS, ["c18", str(res.seed)], gens.case_lines(cases))
     fails = [l for l in out if l.startswith("FAIL ")]
@@ -183,6 +188,22 @@ def c18(res, st, std_coq):
                       {"kind": "c18", "entry": f[1], "input_hex": f[2], "key": f[3]})
     stat = [l for l in out if l.startswith("STAT")]
     res.extra["impl_runs"] = stat[0] if stat else ""
+    # the same calls in two FRESH processes, in opposite orders: a result that depends on which call came first in the process shows here
+    fwd = vlib.run_lines(vlib.HARNESS, ["c18-each"], gens.case_lines(cases))
+    bwd = vlib.run_lines(vlib.HARNESS, ["c18-each"], gens.case_lines(cases[::-1]))
+    dg = dict(tuple(l.rsplit(" ", 1)) for l in bwd if l.count(" ") == 2)
+    nord = 0
+    for l in fwd:
+        if l.count(" ") != 2:
+            continue
+        k, d = l.rsplit(" ", 1)
+        if dg.get(k, d) != d:
+            nord += 1
+            if nord <= 5:
+                res.violation("result of a call depends on the calls made before it in the same process: result-depends-on-process-history",
+                              {"kind": "c18", "entry": k.split()[0], "input_hex": k.split()[1], "key": "result-depends-on-process-history",
+                               "how": "harness c18-each on the case list in the given and in the reversed order (two processes); digests differ"})
+    res.extra["fresh_process_order_pairs"] = len(fwd)
     # the same under the race detector (support only; needs cgo, so it is attempted and reported, never required)
     race = {"attempted": False}
     if True:
@@ -840,8 +861,18 @@ def c07(res, st, std_coq):
     cases = gens.precedence_cases(rnd, 3, 4000 if q else 400000)
     inputs = [x for x, _ in cases]
     # (1) the model is the code: fragment parser vs ParseExpr on the property's enumeration and on arbitrary fragment-ish inputs
-    frag_correspondence(res, inputs, "operator trees (<= 3 operators, minimal and full spelling) + random deeper trees")
-    frag_correspondence(res, frag_inputs(rnd, q), "random/mutated fragment expressions, near-miss inputs, token soups")
+    bad_all = []
+    for ins_, label in ((inputs, "operator trees (<= 3 operators, minimal and full spelling) + random deeper trees"),
+                        (frag_inputs(rnd, q) + [b"((a + b)) * c", b"-((a))", b"((a | b)).c", b"x IN (((1)), 2)", b"(((a)))", b"((a)) + ((b))", b"NOT ((a))", b"((a, b))"],
+                         "random/mutated fragment expressions, near-miss inputs, token soups, nested parentheses")):
+        r_ = frag_correspondence(res, ins_, label)
+        if r_ and r_[1]:
+            bad_all += r_[1]
+    # the model is proved to group by the table and to keep every explicit parenthesis as a ParenExpr around exactly its operand: an input on
+    # which ParseExpr returns another tree than the model is an input on which it violates C07 (or leaves the modelled fragment's behaviour)
+    for (x, g_, m_) in bad_all[:3]:
+        res.violation("ParseExpr groups or parenthesises differently from the fragment model proved against the precedence table",
+                      {"kind": "c07-model", "entry": "ParseExpr", "input_hex": hexs(x), "go": g_, "model": m_})
     # (2) the property on the implementation: grouping = the table's grouping; SQL() adds and drops no parenthesis
     out = vlib.run_lines(vlib.HARNESS, ["expr-shape"], "\n".join(hexs(x) for x in inputs) + "\n")
     nbad = 0
